@@ -63,7 +63,7 @@ def _lattice_case(r1, r2, d2) -> str:
 def run_case(case):
     """One sweep: fixed radii, first centre c1, second centre c1 + sg * (dx, dy) for every point, every k.
     -> {embedding: (events, infos)}, events = [d2, k, s12, n12, s21, n21, z12, z21] sorted by (d2, k) and
-    merged when identical; infos[i] = [dx, dy, k, multiplicity, exception text] of the first owner."""
+    merged when identical; infos[i] = [dx, dy, k, multiplicity, exception text, how the centres were given] of the first owner."""
     from frame.geometry.geometry import Point
     from tools.force.fruchterman_reingold import circle_circle_intersection_area as area
 
@@ -90,7 +90,61 @@ def run_case(case):
             return 0, n, int(type(v) is int and v == 0), ""
 
         merged: dict[tuple, list] = {}
+
+        def put(d2, dx, dy, k, kk, o12, o21, how=""):
+            s12, n12, z12, m12 = o12
+            s21, n21, z21, m21 = o21
+            key = (d2, s12, n12, s21, n21, z12, z21)
+            if key in merged:
+                g = merged[key]
+                g[3] += 1
+                g[5] = min(g[5], kk)
+                if kk == 0 and g[2] != 0:
+                    g[0], g[1], g[2] = dx, dy, 0
+            else:
+                merged[key] = [dx, dy, k, 1, m12 or m21, kk, how]
+
+        # Object identity must not matter: the SAME Point instance as both centres (two different concentric discs), and
+        # two modules that share one centre object seen through total_intersection_area (which sums both ordered pairs).
+        # Both are the lattice configuration D2 = 0 and are judged like it.
+        ident = [pt[3] for pt in case["pts"] if len(pt) == 4] or (["shared_point", "shared_centre_in_total_intersection_area"]
+                                                                    if all(len(pt) == 2 for pt in case["pts"]) else [])
+        for how in ident:
+            if how == "shared_point":
+                def shared(ra, rb):
+                    p = Point(X1, Y1)
+                    try:
+                        v = area(p, ra, p, rb)
+                    except Exception as e:
+                        return 1, 0, 0, f"{type(e).__name__}: {e}"
+                    if isinstance(v, bool) or not isinstance(v, (int, float)) or not math.isfinite(v):
+                        return 2, 0, 0, repr(v)
+                    return 0, max(-CLAMP, min(CLAMP, round(v * scale))), int(type(v) is int and v == 0), ""
+                put(0, 0, 0, 0, 0, shared(R1, R2), shared(R2, R1), how)
+            else:
+                def total():
+                    try:
+                        from frame.geometry.geometry import Rectangle
+                        from frame.netlist.netlist import Netlist
+                        from frame.die.die import Die
+                        from tools.force.fruchterman_reingold import total_intersection_area
+                        Rectangle.undefine_epsilon()
+                        a1, a2 = math.pi * float(R1) ** 2, math.pi * float(R2) ** 2
+                        nl = Netlist({"Modules": {"A": {"area": a1, "center": [float(X1), float(Y1)]},
+                                                  "B": {"area": a2, "center": [float(X1), float(Y1)]}}})
+                        nl.modules[1].center = nl.modules[0].center          # stacked: one centre object for both
+                        side = 4 * rmax + 2 * abs(float(X1)) + 2 * abs(float(Y1)) + 1
+                        v = total_intersection_area(Die(f"{side!r}x{side!r}", nl)) / 2   # both ordered pairs are summed
+                    except Exception as e:
+                        return 1, 0, 0, f"{type(e).__name__}: {e}"
+                    if not isinstance(v, (int, float)) or not math.isfinite(v):
+                        return 2, 0, 0, repr(v)
+                    return 0, max(-CLAMP, min(CLAMP, round(v * scale))), 0, ""
+                o = total()
+                put(0, 0, 0, 0, 0, o, o, how)
         for pt in case["pts"]:
+            if len(pt) == 4:
+                continue
             dx, dy = pt[0], pt[1]
             ks = KS if len(pt) == 2 else [pt[2]]
             d2 = dx * dx + dy * dy
@@ -102,21 +156,11 @@ def run_case(case):
                     x2 = _shift(X2, k * sx) if dx else X2        # along the line of centres, k > 0 = away
                     y2 = _shift(Y2, k * sy) if dy else Y2
                     kk = k
-                s12, n12, z12, m12 = obs(X1, Y1, R1, x2, y2, R2)
-                s21, n21, z21, m21 = obs(x2, y2, R2, X1, Y1, R1)
-                key = (d2, s12, n12, s21, n21, z12, z21)
-                if key in merged:
-                    g = merged[key]
-                    g[3] += 1
-                    g[5] = min(g[5], kk)
-                    if kk == 0 and g[2] != 0:
-                        g[0], g[1], g[2] = dx, dy, 0
-                else:
-                    merged[key] = [dx, dy, k, 1, m12 or m21, kk]
+                put(d2, dx, dy, k, kk, obs(X1, Y1, R1, x2, y2, R2), obs(x2, y2, R2, X1, Y1, R1))
         # identical observations at the same D2 (typically all ulp shifts away from a boundary) are one event,
         # placed at its smallest shift and labelled k = 0 if the unshifted evaluation is among them
         keys = sorted(merged, key=lambda q: (q[0], merged[q][5], q))
-        out[en] = ([[q[0], 0 if merged[q][2] == 0 else merged[q][5], *q[1:]] for q in keys], [merged[q][:5] for q in keys])
+        out[en] = ([[q[0], 0 if merged[q][2] == 0 else merged[q][5], *q[1:]] for q in keys], [merged[q][:5] + [merged[q][6]] for q in keys])
     return out
 
 
@@ -236,8 +280,10 @@ def decide(ctx: Ctx, cases: list[dict], budget: int = 600000):
                     ctx.count(f"{r1},{r2},{e[0]}", nontrivial=True, n=0)
             for (l, clause) in v["fails"]:
                 e, inf = t["events"][l - 1], infos[l - 1]
-                pts = [[inf[0], inf[1], inf[2]]]
+                pts = [[inf[0], inf[1], inf[2]] + ([inf[5]] if inf[5] else [])]
                 detail = {"event": e, "lattice_case": _lattice_case(r1, r2, e[0])}
+                if inf[5]:
+                    detail["how"] = inf[5]
                 if inf[4]:
                     detail["exception"] = inf[4]
                 if clause in CHAIN:        # the other half of the pair: the last earlier event with a value
@@ -251,7 +297,7 @@ def decide(ctx: Ctx, cases: list[dict], budget: int = 600000):
                               {"r1": r1, "r2": r2, "embedding": m["embs"][0], "c1": c["c1"], "sg": c["sg"], "pts": pts},
                               detail,
                               {"clause": clause, "case": _lattice_case(r1, r2, e[0]), "k": e[1],
-                               "embedding": m["embs"][0], "status": max(e[2], e[4]),
+                               "embedding": m["embs"][0], "status": max(e[2], e[4]), "centres_given_as": inf[5] or "two_points",
                                "exception": inf[4].split(":")[0] if (e[2] == 1 or e[4] == 1) else ""})
             for (l, what) in v["drift"]:
                 ctx.model_drift(f"{what}: with exact inputs the code did not take the `return 0` branch exactly when the model does")
@@ -294,6 +340,8 @@ def run(ctx: Ctx) -> int:
     ctx.assumptions += [
         "every clause is relative to rmax^2, so the TLC-generated sweeps are also run at lattice steps 1e-6, 1e-9 and 1e9 (micro, nano, "
         "huge): an absolute threshold in the code (a guard like d < 1e-6) is invisible at unit scale and decisive there",
+        "object identity: every sweep is also evaluated with ONE Point instance as both centres and, through total_intersection_area, with "
+        "two modules sharing one centre object (both are the configuration D2 = 0)",
         "float dimension sampled: 8 embeddings of the integer lattice x 7 ulp shifts of the second centre along the line of centres, not enumerated",
         "areas pulled back as round(area / rmax^2 * 1e8); tolerances in TLA+: accuracy 1e-5 rmax^2 (1000 units), symmetry and bounds 1e-6 rmax^2 (100 units), 3 units slack for the rounding of the constants and the <= 3 ulp shift",
         "monotone / Lipschitz / enclosure clauses are consequences of the accuracy clause (two values within 1e-5 rmax^2 of a non-increasing 2*rmin-Lipschitz function), judged with 2e-5 rmax^2",
